@@ -49,6 +49,8 @@ type Hooks struct {
 	// client that brings its own Transport is routed to the simulated
 	// network as well.
 	Client func(c *http.Client) *http.Client
+	// Clock is called before the code under test reads the clock.
+	Clock func()
 }
 
 // H is the attached simulator, nil when idle.
@@ -376,3 +378,17 @@ func Sleep(site int, d time.Duration) {
 	time.Sleep(d)
 	BlockEnd(tok)
 }
+
+// Now / Since / Until wrap the clock reads of the code under test: the
+// simulator first charges the simulated CPU time consumed since the last
+// charge (Hooks.Clock), then the (simulated) clock is read.
+func Now() time.Time {
+	if h := H; h != nil && h.Clock != nil {
+		h.Clock()
+	}
+	return time.Now()
+}
+
+func Since(t time.Time) time.Duration { return Now().Sub(t) }
+
+func Until(t time.Time) time.Duration { return t.Sub(Now()) }
